@@ -527,6 +527,15 @@ func vfGenProdCase(t *rapid.T, emph string) *vfProdCase {
 			}
 		}
 		c.FlushProbe = true
+		// a third of the cases: one or two interceptors that enlarge the value - the limits apply to what is sent
+		if c.Conf.MaxMessageBytes < 20000 {
+			switch rapid.IntRange(0, 5).Draw(t, "c16.pad") {
+			case 0:
+				c.Conf.Interceptors = []string{"pad"}
+			case 1:
+				c.Conf.Interceptors = []string{"pad", "pad"}
+			}
+		}
 	}
 	gates := vfGenFaults(t, c, 12, c.Conf.Idempotent)
 	if emph == "C16" {
